@@ -348,8 +348,9 @@ def prim_tuples(thorough_extra=True):
         for delta in (0, size, 2 * size, TOP - size):
             for trunc in range(1, size + 1):
                 out.append((size, trunc, delta))
+    # size 8: each basis harness costs 3-15 min, so two skew offsets and three truncated sizes
     for delta in (0, 8, TOP - 8):
-        for trunc in (1, 3, 4, 5, 8):
+        for trunc in ((3, 5, 8) if delta != 8 else (3, 5)):
             out.append((8, trunc, delta))
     return out
 
